@@ -148,6 +148,8 @@ class EdgeQLSourceGenerator(codegen.SourceGenerator):
         return (
             parent is not None
             and not isinstance(parent, qlast.DDL)
+            # ANALYZE takes a bare statement
+            and not isinstance(parent, qlast.ExplainStmt)
             # Non-union FOR bodies can't have parens
             and not (
                 isinstance(parent, qlast.ForQuery)
@@ -2653,6 +2655,17 @@ class EdgeQLSourceGenerator(codegen.SourceGenerator):
     def visit_ReleaseSavepoint(self, node: qlast.ReleaseSavepoint) -> None:
         self._write_keywords('RELEASE SAVEPOINT ')
         self.write(ident_to_str(node.name))
+
+    def visit_ExplainStmt(self, node: qlast.ExplainStmt) -> None:
+        self._write_keywords('ANALYZE ')
+        if node.args:
+            self.visit(node.args)
+            self.write(' ')
+        self.visit(node.query)
+
+    def visit_AdministerStmt(self, node: qlast.AdministerStmt) -> None:
+        self._write_keywords('ADMINISTER ')
+        self.visit(node.expr)
 
     def visit_DescribeStmt(self, node: qlast.DescribeStmt) -> None:
         self._write_keywords('DESCRIBE ')
